@@ -259,12 +259,24 @@ func (fr *Frame) callStatic(ins ssa.Instruction, callee *ssa.Function, args []*V
 			}
 		}
 	}
+	if ex.lockCheck && callee.Pkg == ex.pkg {
+		if c := ex.cs.Funcs[ex.fnKey(callee)]; c != nil {
+			for _, hp := range c.Holds {
+				for k, p := range callee.Params {
+					if p.Name() == hp && k < len(args) {
+						h := ex.get(fr.cur, fr.ghost("held"))
+						ex.vc.oblige("guard", ex.oblName(fmt.Sprintf("%s/guard@call %s:holds %s", fr.key, callee.Name(), hp)), fr.curReach, "(select "+h+" "+args[k].T+")", "callee expects the mutex of "+hp+" to be held", ex.posOf(ins.Pos()), nil)
+					}
+				}
+			}
+		}
+	}
 	// library function?
 	if callee.Pkg == nil || callee.Pkg != ex.pkg {
 		return fr.callLib(ins, callee, args, resSort)
 	}
 	key := ex.fnKey(callee)
-	if c, ok := ex.cs.Funcs[key]; ok && !(c.safetyOnly() && !ex.safety) {
+	if c, ok := ex.cs.Funcs[key]; ok && !c.holdsOnly() && !(c.safetyOnly() && !ex.safety) {
 		return fr.applyContract(ins, c, key, callee, callee.Signature, nil, args, resSort)
 	}
 	// inline when loop-free (or all loops have specs -> not supported without contract)
